@@ -157,3 +157,54 @@ def _object_method(self, obj, name, args, kwargs):
 
 from .interp import Interp
 Interp.object_method = _object_method
+
+
+# ---------------------------------------------------------------------------------------------- ISO 7064 Mod 97-10
+@contract('stdnum.iso7064.mod_97_10', 'checksum')
+def _mod97_checksum(I, fn, args, kwargs):
+    """checksum(s) == int(''.join(str(int(x, 36)) for x in s)) % 97, computed as the Horner residue
+    acc' = (acc * (10 if v < 10 else 100) + v) % 97 over v = int(x, 36).
+    The equality of the two formulations for every length is lemma `mod97_simulation` of the C06 check."""
+    import z3
+    from .sym import tostr, FixedStr, LongStr, AbstractStr
+    ctx = I.ctx
+    number = args[0]
+    if isinstance(number, AbstractStr):
+        number = I.materialise(number)
+    number = I.norm_str(number)
+    if isinstance(number, str):
+        return NotImplemented
+    if isinstance(number, LongStr):
+        if not ctx.branch(ctx.fresh_bool('mod97ok')):
+            raise Raise(ValueError, 'int(x, 36) of a character that is no base-36 digit', approx=True)
+        from .isets import ISet, cls
+        I.long_fact(number, cls('decimal').union(ISet([(65, 90), (97, 122)])))
+        ctx.require(number.L * 2 <= 4300, ValueError, 'int(): more than 4300 digits')
+        r = ctx.fresh_int('ck97')
+        ctx.add(z3.And(r >= 0, r < 97))
+        ctx.mark_approx('Mod 97-10 of a string of unbounded length')
+        return r
+    if not isinstance(number, FixedStr):
+        if number is None or isinstance(number, int) or is_sym(number):
+            raise Raise(TypeError, 'object is not iterable')
+        return NotImplemented
+    if len(number) == 0:
+        raise Raise(ValueError, "int('')")
+    memo = ctx.__dict__.setdefault('memo', {})
+    key = ('mod97',) + tuple(c if isinstance(c, int) else c.get_id() for c in number.chars)
+    if key in memo:
+        return memo[key]
+    acc = 0
+    for ch in number.chars:
+        v = I.to_int(FixedStr([ch]), 36)
+        if isinstance(v, int):
+            m = 10 if v < 10 else 100
+            acc = (acc * m + v) % 97
+        else:
+            acc = z3.If(v < 10, acc * 10 + v, acc * 100 + v) % 97
+    if isinstance(acc, int):
+        return acc
+    r = ctx.fresh_int('ck97')
+    ctx.add(r == acc)
+    memo[key] = r
+    return r
